@@ -104,7 +104,7 @@ func rulesC20(c *Ctx) {
 	}
 	c.Check(len(vals) == 1 && len(one) == 1, "R1", "key separator agreement", 0, fmt.Sprintf("%d sites all use %q", len(sites), one),
 		"the flatten / JSON / rebuild / emit sites do not agree on one one-character separator: "+strings.Join(desc, "; ")+" — flattening and rebuilding are no longer inverse")
-	c.Floor("R1", len(sites), 5)
+	c.Floor("R1", len(sites), 3)
 
 	// ---- R2 / R6 the JSON object walk --------------------------------------------------------
 	var walk *ssa.Function
@@ -567,39 +567,41 @@ func rulesC20(c *Ctx) {
 }
 
 // noBackslashIn: the facts say that byte slice / string v contains no backslash.
-func noBackslashIn(fs factSet, v ssa.Value) bool {
-	isBS := func(a ssa.Value) bool {
-		if k, ok := constInt(a); ok && k == '\\' {
+func noBackslashIn(fs factSet, v ssa.Value) bool { return charAbsentIn(fs, v, '\\') }
+
+// charAbsentIn: the facts say that byte slice / string v does not contain the byte ch
+// (IndexByte(v, ch) == -1 / < 0, !Contains(v, "ch"), ...).
+func charAbsentIn(fs factSet, v ssa.Value, ch byte) bool {
+	isCh := func(a ssa.Value) bool {
+		if k, ok := constInt(a); ok && k == int64(ch) {
 			return true
 		}
-		if s, ok := constString(a); ok && s == "\\" {
+		if s, ok := constString(a); ok && s == string([]byte{ch}) {
 			return true
 		}
 		if cv, ok := a.(*ssa.Convert); ok {
-			if s, ok := constString(cv.X); ok && s == "\\" {
+			if s, ok := constString(cv.X); ok && s == string([]byte{ch}) {
 				return true
 			}
 		}
 		return false
 	}
 	for k := range fs {
-		// !Contains(v, "\\")
 		if call, ok := k.v.(*ssa.Call); ok && !k.pol {
 			if f := call.Call.StaticCallee(); f != nil {
 				switch qualName(f) {
 				case "bytes.Contains", "strings.Contains", "bytes.ContainsRune", "strings.ContainsRune", "bytes.ContainsAny", "strings.ContainsAny":
-					if resolve(call.Call.Args[0]) == v && isBS(call.Call.Args[1]) {
+					if (resolve(call.Call.Args[0]) == v || sameValue(resolve(call.Call.Args[0]), v)) && isCh(call.Call.Args[1]) {
 						return true
 					}
 				}
 			}
 		}
-		// IndexByte(v, '\\') == -1 / < 0
 		bo, ok := k.v.(*ssa.BinOp)
 		if !ok {
 			continue
 		}
-		call, ok := bo.X.(*ssa.Call)
+		call, ok := resolve(bo.X).(*ssa.Call)
 		if !ok {
 			continue
 		}
@@ -612,7 +614,7 @@ func noBackslashIn(fs factSet, v ssa.Value) bool {
 		default:
 			continue
 		}
-		if resolve(call.Call.Args[0]) != v || !isBS(call.Call.Args[1]) {
+		if !(resolve(call.Call.Args[0]) == v || sameValue(resolve(call.Call.Args[0]), v)) || !isCh(call.Call.Args[1]) {
 			continue
 		}
 		kk, isK := constInt(bo.Y)
